@@ -16,6 +16,7 @@ Core Lean only.
 -/
 import JsonV.Model.Basic
 import JsonV.Model.Utf8
+import JsonV.Model.State
 
 namespace JsonV.Model.Pointer
 open JsonV JsonV.Model
@@ -265,5 +266,57 @@ def AState.run (s : AState) : List Tok → Option AState
     | some s' => s'.run ts
 
 def AState.init : AState := {}
+
+/-! ### StackDepth / StackIndex (decode.go:1181-1209, encode.go:956-984) -/
+
+/-- `StackDepth()`: `Tokens.Depth() - 1`. -/
+def stackDepth (m : Machine) : Nat := m.depth - 1
+
+/-- `StackIndex(i)`: `Tokens.index(i)` is `Last` for `i == len(Stack)` and `Stack[i]` otherwise (`none`: the Go code
+panics with an index out of range); kind 0 for level 0, '{' or '[' above. -/
+def stackIndex (m : Machine) (i : Nat) : Option (UInt8 × Nat) :=
+  (if i = m.stack.length then some m.last else m.stack[i]?).map fun e =>
+    (if i > 0 ∧ e.isObject then 0x7b else if i > 0 ∧ e.isArray then 0x5b else 0, e.length)
+
+/-! ### the same on the packed state machine (`state{Tokens stateMachine; Names objectNameStack}`) -/
+
+/-- `Tokens` as the packed `Machine` of Model/State.lean and `Names` (innermost first, one slot per open object). -/
+structure MState where
+  m : Machine := {}
+  names : List Bytes := []
+deriving Repr, Inhabited
+
+/-- `Names.ReplaceLastQuotedOffset`: overwrite the slot of the innermost object. -/
+def replaceHead (names : List Bytes) (n : Bytes) : List Bytes :=
+  match names with
+  | [] => []          -- `ns.offsets[len-1]` would panic; never reached (one slot per open object)
+  | _ :: ns => n :: ns
+
+/-- ReadToken / WriteToken: the machine operation of the token plus `Names.push` on '{',
+`Names.ReplaceLastQuotedOffset` on a member name (tested BEFORE `appendString`), `Names.pop` on '}'. -/
+def MState.step (maxDepth : Nat) (s : MState) : Tok → Except SMErr MState
+  | .scalar => (s.m.appendLiteral).map (fun m => { s with m := m })
+  | .str n =>
+    let names' := if s.m.last.needObjectName then replaceHead s.names n else s.names
+    (s.m.appendString).map (fun m => { m := m, names := names' })
+  | .beginObj => (s.m.pushObject maxDepth).map (fun m => { m := m, names := [] :: s.names })
+  | .endObj => (s.m.popObject).map (fun m => { m := m, names := s.names.drop 1 })
+  | .beginArr => (s.m.pushArray maxDepth).map (fun m => { s with m := m })
+  | .endArr => (s.m.popArray).map (fun m => { s with m := m })
+
+def MState.run (maxDepth : Nat) (s : MState) : List Tok → Except SMErr MState
+  | [] => .ok s
+  | t :: ts => match s.step maxDepth t with
+    | .error e => .error e
+    | .ok s' => s'.run maxDepth ts
+
+/-- What `appendStackPointer` reads off the packed entries: `e.isObject()` and `e.Length()`, index 0 … Depth()-1
+(here innermost first), and the names. -/
+def MState.view (s : MState) : AState :=
+  { stack := (s.m.last :: s.m.stack.reverse).map (fun e => ⟨e.isObject, e.length⟩), names := s.names }
+
+/-- `state.appendStackPointer(b, where)` on the packed machine. -/
+def MState.appendStackPointer (s : MState) (b : Bytes) (wh : Int) : Option Bytes :=
+  Pointer.appendStackPointer s.view b wh
 
 end JsonV.Model.Pointer
